@@ -25,6 +25,7 @@ type SpecEnv struct {
 	iterCount string
 	bound    map[string]string // bound variables in scope (SMT name -> sort)
 	callArgs []*Val            // arg(i) inside an "at <callee> n" block
+	callRecv *Val              // recv() inside an "at <method> n" block of an interface call
 	atCallSite bool            // a callee's contract instantiated at a call: res() of the callee's own calls is unknown
 	skip     *bool             // set when the clause cannot be expressed in this context
 	oldVars  map[string]*Val   // parameter values at function entry (for old())
@@ -638,6 +639,20 @@ func (e *SpecEnv) call(x *ast.CallExpr) *Val {
 			return e.fail("count() is only available in iterator invariants")
 		}
 		return &Val{T: mathInt, S: e.iterCount, Math: true}
+	case "recv":
+		if e.callRecv != nil {
+			return e.callRecv
+		}
+		return e.fail("recv(): this site is not an interface method call")
+	case "recvOf":
+		// recvOf(Method, n): the receiver of the n-th interface call of Method in this function
+		if len(x.Args) == 2 && e.fr.callArgVals != nil {
+			key := exprText(x.Args[0]) + "#" + exprText2(x.Args[1]) + "#recv"
+			if avs, ok := e.fr.callArgVals[key]; ok && len(avs) == 1 {
+				return avs[0]
+			}
+		}
+		return &Val{T: mathInt, S: e.fr.u.S.fresh("norecv", "Int"), Math: true}
 	case "chancap":
 		// the capacity the channel was made with (ghost attribute set at make(chan T, n))
 		e.fr.u.S.declareFun("chan_cap", []string{"Int"}, "Int")
